@@ -21,6 +21,10 @@ typedef struct BindField {
     const char *legacy_name;
     /* read, then write v (or initialise the header if with_init), then read again - direct calls in one function */
     uint64_t (*fused)(void *pdu, uint64_t v, uint64_t *before, int with_init);
+    /* the dedicated setter called with a compile-time constant argument (what application code mostly does): cset[k] writes cval[k] */
+    void (*const *cset)(void *pdu);
+    const uint64_t *cval;
+    unsigned ncset;
 } BindField;
 
 typedef struct BindFunc {  /* every prototype found in the header */
